@@ -71,6 +71,10 @@ func NewCtx(id, tier string) *Ctx {
 		knownSeen: map[string]int{}, distinct: map[string]struct{}{}, Extra: map[string]any{}, counters: map[string]int{}, sets: map[string]map[string]struct{}{}, MinDistinct: 2, shard: -1}
 	if sh := os.Getenv("VERIF_SHARD"); sh != "" {
 		fmt.Sscanf(sh, "%d/%d", &c.shard, &c.shards)
+	} else if old, err := filepath.Glob(filepath.Join(VerifRoot, "replay", id, fmt.Sprintf("%s-seed%d-*.json", tier, seed))); err == nil {
+		for _, f := range old { // replay files of an earlier run of the same (tier, seed) are stale
+			_ = os.Remove(f)
+		}
 	}
 	b, err := os.ReadFile(filepath.Join(VerifRoot, "known_findings.json"))
 	if err == nil {
@@ -490,3 +494,10 @@ var CaseWatchdog = 180 * time.Second
 
 // First tells whether this process is the first shard (for counting things every shard enumerates identically).
 func (c *Ctx) First() bool { return c.shard <= 0 }
+
+// EvalDistinctOnly registers a distinct non-trivial case that was already counted in Evaluations.
+func (c *Ctx) EvalDistinctOnly(key string) {
+	c.mu.Lock()
+	c.distinct[key] = struct{}{}
+	c.mu.Unlock()
+}
